@@ -253,10 +253,11 @@ func genSoup(t *rapid.T, m *Model, o *soupOpts) string {
 // G-tree: well-formed documents. Attribute values are always quoted.
 
 type node struct {
-	el    string
-	attrs []string // already serialised k="v"
-	kids  []*node
-	text  string // for text nodes (el == "")
+	el      string
+	attrs   []string // already serialised k="v"
+	kids    []*node
+	text    string // for text nodes (el == "")
+	voidEnd bool   // void element followed by its own end tag
 }
 
 type treeGen struct {
@@ -267,6 +268,7 @@ type treeGen struct {
 	noVoidS  map[string]bool // names never to generate
 	plain    bool            // canonical attribute syntax only
 	comments bool            // also generate comment leaves (each with its own marker)
+	voidEnds bool            // void elements are now and then followed by their own end tag
 }
 
 func (g *treeGen) textNode() *node {
@@ -310,6 +312,9 @@ func (g *treeGen) gen(depth int) *node {
 		n.attrs = append(n.attrs, quotedAttr(k, v))
 	}
 	if voidEls[el] {
+		// a void element written with an end tag (<img></img>): every NON-void element is still
+		// properly opened and closed. Not for br: </br> is read as <br>.
+		n.voidEnd = g.voidEnds && el != "br" && rapid.IntRange(0, 3).Draw(g.t, "voidEnd") == 0
 		return n
 	}
 	if rawTextEls[el] {
@@ -339,6 +344,9 @@ func (n *node) write(sb *strings.Builder) {
 	}
 	sb.WriteString(">")
 	if voidEls[n.el] {
+		if n.voidEnd {
+			sb.WriteString("</" + n.el + ">")
+		}
 		return
 	}
 	for _, k := range n.kids {
@@ -348,6 +356,7 @@ func (n *node) write(sb *strings.Builder) {
 }
 
 type treeOpts struct {
+	voidEnds bool
 	comments bool
 	extraEls []string
 	exclude  map[string]bool
@@ -370,6 +379,7 @@ func genTree(t *rapid.T, m *Model, o *treeOpts) string {
 		g.els = append(g.els, o.extraEls...)
 		g.noVoidS = o.exclude
 		g.comments = o.comments
+		g.voidEnds = o.voidEnds
 		if o.depth > 0 {
 			depth = o.depth
 		}
